@@ -379,6 +379,47 @@ def check_emit(prog, r):
                        "towards iBGP receivers, except on a reflector where only non-client -> non-client is suppressed)" % (res_, v["dest"], v["ibgp_learned"], v["reflector"], v["from_client"]), iv.loc())
         else:
             r.ok("ibgp_split_horizon_suppress: truth table over (receiver role, iBGP-learned, reflector, from client) equals the stated rule (%d paths)" % len(rws))
+    # is_ibgp_learned feeds split horizon and reflection: it must hold for paths learned from *every* kind of iBGP neighbour
+    # (plain and route-reflector client alike): decided by AS equality, or by a role test that names both iBGP roles
+    lk_ = prog.find(r"rustybgpd::event::export::is_ibgp_learned")
+    if len(lk_) == 1:
+        r.analysed(prog.name(lk_[0]))
+
+        def cls_l(e, labels, fvx):
+            lab = set(labels)
+            if e[0] == "discr" and e[2] and e[2].endswith("PeerRole") and "else" not in lab:
+                return ("role", frozenset(lab))
+            if e[0] == "call" and re.search(r"PartialEq(>)?::(eq|ne)$", e[1]) and "PeerRole" in (e[5] or "") and len(lab) == 1 and lab <= {"true", "false"}:
+                c = [x[3] for x in walk(e) if isinstance(x, tuple) and x and x[0] == "const" and x[3] in ROLES]
+                if len(c) == 1:
+                    same = e[1].endswith("::eq") == (lab == {"true"})
+                    return ("role", frozenset({c[0]}) if same else frozenset(set(ROLES) - {c[0]}))
+            if len(lab) == 1 and lab <= {"true", "false"}:
+                t_ = lab == {"true"}
+                if e[0] == "call" and e[1].endswith("Source::is_local"):
+                    return ("local", t_)
+                if e[0] == "bin" and e[1] in ("Eq", "Ne") and {"remote_asn", "local_asn"} <= set(expr_fields(e)):
+                    return ("same_as", t_ == (e[1] == "Eq"))
+            return None
+        rws, lv_ = predicates.rows(prog, lk_[0], cls_l)
+        if rws is None:
+            r.unanalysable("is_ibgp_learned: too many paths", lv_.loc())
+        else:
+            unk = sorted({u for f_, res_, us in rws for u in us})
+            uses_role = any("role" in f_ for f_, res_, us in rws)
+            spec_l = (lambda v: (not v["local"]) and v["role"] in ("Ibgp", "IbgpRrClient")) if uses_role else (lambda v: (not v["local"]) and v["same_as"])
+            uni_l = {"local": [False, True], "role": ROLES} if uses_role else ["local", "same_as"]
+            bad = predicates.counterexamples(rws, uni_l, spec_l)
+            if unk:
+                r.unanalysable("is_ibgp_learned: conditions not understood: %s" % [u[0] for u in unk][:3], lv_.loc())
+            elif bad:
+                kind, v, res_ = bad[0]
+                r.fail(lv_.name, "ibgp-learned-predicate", "is_ibgp_learned answers %s for %s: a path counts as iBGP-learned iff its (non-local) source is an iBGP neighbour of either kind "
+                       "(Ibgp or IbgpRrClient / remote AS = local AS); otherwise client-learned routes are reflected without ORIGINATOR_ID / CLUSTER_LIST" % (res_, v), lv_.loc())
+            else:
+                r.ok("is_ibgp_learned: true exactly for non-local sources that are iBGP neighbours (%s)" % ("both iBGP roles" if uses_role else "remote AS = local AS"))
+    else:
+        r.unanalysable("is_ibgp_learned anchor matched %d" % len(lk_))
     rv_ = view(prog, prog.one(r"rustybgpd::event::export::rs_isolation_suppress"))
     r.analysed(rv_.name)
     e = Renderer(rv_, depth=12).local(0, 12)
